@@ -9,7 +9,8 @@ buffer is `Header.decodeHeader` / `Header.decodeMessage`.
 
 Environment (kernel + peer), an explicit input:
   * the peer's byte stream is a list of *cells*: one byte together with the descriptors that ride on it.
-    SCM_RIGHTS descriptors ride on the FIRST byte of the `sendmsg` they were attached to.
+    SCM_RIGHTS descriptors ride on the FIRST byte of the `sendmsg` they were attached to; which byte of the frame
+    that is, is the peer's choice (`cells`, placement `p`).
   * `World.avail` of the unread cells have arrived in the socket's receive queue; `arrive n` makes n more arrive.
   * one `recvmsg(buffer of req bytes)` is answered by EAGAIN or by `k ≥ 1`: the kernel hands over
     `min k req avail` bytes, in order, and the descriptors riding on those bytes (at most `cmsgCap` = 10 fit
@@ -24,22 +25,27 @@ Descriptors are identified by a number (the open file they refer to, what `fstat
 namespace Rustbus.Recv
 open Rustbus Rustbus.Bytes Rustbus.Header
 
-/-- one message as the peer wrote it: its bytes and the descriptors attached to its first `sendmsg` -/
+/-- one message as the peer wrote it: its bytes and the descriptors attached to it -/
 structure Frame where
   bytes : List UInt8
   fds : List Nat
   deriving Repr, DecidableEq
 
-/-- the cells of one frame: descriptors ride on the first byte -/
-def cells (f : Frame) : List (UInt8 × List Nat) :=
-  match f.bytes with
-  | [] => []
-  | b :: bs => (b, f.fds) :: bs.map (fun x => (x, []))
+/-- the cells of a byte string of which byte `pos` (counted from `i`) carries the descriptors `fds` -/
+def cellsFrom (fds : List Nat) (pos : Nat) : Nat → List UInt8 → List (UInt8 × List Nat)
+  | _, [] => []
+  | i, b :: bs => (b, if i = pos then fds else []) :: cellsFrom fds pos (i + 1) bs
+
+/-- the cells of one frame: its descriptors ride on byte `p f` of the frame — the first byte of the `sendmsg` the peer
+    attached them to. `p` is the peer's PLACEMENT: rustbus itself attaches them to the first write of a message
+    (`p f = 0`), the D-Bus specification allows any byte of the message. -/
+def cells (p : Frame → Nat) (f : Frame) : List (UInt8 × List Nat) :=
+  cellsFrom f.fds (p f) 0 f.bytes
 
 /-- the peer's stream: the frames back to back -/
-def stream : List Frame → List (UInt8 × List Nat)
+def stream (p : Frame → Nat) : List Frame → List (UInt8 × List Nat)
   | [] => []
-  | f :: fs => cells f ++ stream fs
+  | f :: fs => cells p f ++ stream p fs
 
 /-- kernel + peer: `rest` = cells not yet read by the client, of which the first `avail` have arrived -/
 structure World where
@@ -47,7 +53,7 @@ structure World where
   avail : Nat
   deriving Repr, DecidableEq
 
-def World.init (frames : List Frame) : World := { rest := stream frames, avail := 0 }
+def World.init (p : Frame → Nat) (frames : List Frame) : World := { rest := stream p frames, avail := 0 }
 
 def World.arrive (w : World) (n : Nat) : World := { w with avail := w.avail + n }
 
